@@ -34,6 +34,8 @@ PATCHES = [
     b'[{"op":"remove","path":""}]',
     b'[{"op":"copy","from":"/a","path":""}]',
     b'[{"op":"test","path":"","value":{}},{"op":"remove","path":""}]',
+    b'[{"op":"add","path":"/a~1b/m~0n/-","value":1.5},{"op":"replace","path":"/a~1b/m~0n/0","value":2.5}]',
+    b'[{"op":"copy","from":"/a~1b/m~0n/1","path":"/a~1b/m~0n/0"},{"op":"move","from":"/a~1b/m~0n","path":"/a~1b/x~1y"},{"op":"remove","path":"/a~1b/x~1y/0"}]',
 ]
 POINTERS = [b"", b"/a/1", b"/b/e", b"/k/k/k/2/1/1/0", b"/0/tags/1", b"/x/B", b"/a~1b/m~0n/1", b"/nope", b"/w/2", b"/2/id"]
 KEYS = [b"a", b"b", b"k", b"K", b"x", b"new key", b"id", b"z"]
@@ -70,17 +72,19 @@ def thread_program():
     ).map(list)
     # a few parses up front so that later ops find trees
     objdocs = st.sampled_from([d for d in DOCS if d[:1] == b"{" and d[-1:] == b"}"])
-    head = st.tuples(st.tuples(st.just("P"), st.just(0), st.integers(0, 3), st.integers(0, 1), st.just(0), objdocs).map(list),
+    head = st.tuples(st.tuples(st.just("P"), st.just(3), st.integers(0, 3), st.integers(0, 1), st.just(0), st.just(DOCS[8])).map(list),
+                     st.tuples(st.just("P"), st.just(0), st.integers(0, 3), st.integers(0, 1), st.just(0), objdocs).map(list),
                      st.tuples(st.just("P"), st.just(1), st.integers(0, 3), st.integers(0, 1), st.just(0), objdocs).map(list),
                      st.lists(st.tuples(st.just("P"), st.integers(0, 3), st.integers(0, 3), st.integers(0, 1), st.just(0), text).map(list), max_size=2)
-                     ).map(lambda t: [t[0], t[1]] + t[2])
+                     ).map(lambda t: [t[0], t[1], t[2]] + t[3])
     util = st.tuples(st.just("U"), st.integers(0, 2), st.integers(0, 2), st.integers(0, 1), st.sampled_from([1, 1, 3, 5, 0, 2, 4]), st.sampled_from(POINTERS + PATCHES)).map(list)
     # calls that every thread should make on its two object documents: both patch generators, sort, all print paths
     core = st.lists(st.sampled_from([["U", 0, 1, 0, 1, b""], ["U", 0, 1, 1, 1, b""], ["U", 1, 0, 1, 1, b""], ["U", 1, 0, 1, 3, b""], ["U", 0, 1, 0, 3, b""],
                                      ["U", 0, 1, 1, 5, b""], ["R", 0, 0, 1, 0, b""], ["R", 1, 1, 0, 0, b""], ["R", 0, 2, 1, 3, b""], ["R", 1, 3, 0, 0, b""],
                                      ["D", 2, 0, 1, 0, b""], ["C", 0, 1, 1, 0, b""], ["E", 0, 0, 7, 0, b"new key"],
                                      ["U", 0, 1, 1, 6, b""], ["U", 1, 2, 0, 6, b""], ["U", 0, 5, 1, 6, b""], ["U", 1, 0, 1, 6, b""],
-                                     ["U", 2, 0, 1, 2, b'[{"op":"remove","path":""}]'], ["U", 2, 0, 0, 2, b'[{"op":"replace","path":"","value":[1.5]}]']]), min_size=2, max_size=6)
+                                     ["U", 2, 0, 1, 2, b'[{"op":"remove","path":""}]'],
+                                     ["U", 3, 0, 1, 2, b'[{"op":"add","path":"/a~1b/m~0n/-","value":1.5},{"op":"add","path":"/a~1b/m~0n/0","value":[]}]'], ["U", 2, 0, 0, 2, b'[{"op":"replace","path":"","value":[1.5]}]']]), min_size=2, max_size=6)
     return st.tuples(head, core, st.lists(st.one_of(op, op, util), min_size=3, max_size=30)).map(lambda t: t[0] + t[1] + t[2])
 
 
